@@ -9,7 +9,7 @@
    is NOT formalised: see C08_orbit_stationary_bounded for what is machine-checked of it. *)
 From CV Require Import Base.Tac Base.Ext Base.LinAlg Base.QcLin Model.C08_NUTS.
 From CV Require Import Proofs.C08_Prog Proofs.C08_Leap Proofs.C08_Tree Proofs.C08_Top Proofs.C08_Law Proofs.C08_Orbit
-                       Proofs.C08_Stationary Proofs.C08_Stationary3.
+                       Proofs.C08_Stationary Proofs.C08_Stationary3 Proofs.C08_Block Proofs.C08_Alive.
 From Coq Require Import QArith Qcanon Qminmax Ring.
 Local Open Scope Q_scope.
 
@@ -290,6 +290,80 @@ Theorem C08_orbit_stationary_bounded :
      colsum (fun _ => LIn) (upred6 bs) false 1 3 == 1).
 Proof. split; [exact stationary_md0 | split; [exact stationary_md1 | exact stationary_md1_uturn]]. Qed.
 Print Assumptions C08_orbit_stationary_bounded.
+
+(* ---- Hoffman-Gelman's argument on one orbit, ALL depths ------------------------------------------------- *)
+(* A trajectory of 2^j positions is the block (j, a) = [a, a + 2^j); `okb j a` says the loop can be alive with it
+   (no divergent position, every sub-block of its balanced binary tree passes the U-turn test on its end points --
+   a function of the block alone, whichever member it was built from); `pk j a i x` is the block kernel defined by
+   recursion on that binary tree (Proofs/C08_Block.v).  Hypotheses: the non-finite guard does not interfere
+   (legacy sampler, or finite log-density on the orbit) and in-slice positions are not divergent (true for every
+   finite slice variable, sl_nd_fin).
+
+   (a) the law of the live loop state: started at an in-slice i, after j doublings the loop is alive with
+       trajectory (j, a) and current state x with probability exactly 2^-j * pk j a i x -- every depth j. *)
+Theorem C08_alive_law :
+  forall (H L : Z -> ext) (U : Z -> Z -> bool) (A : Z -> Q) (logu : ext) (guard : bool),
+  guard = false \/ (forall i, finite_logd Z L i = true) ->
+  (forall i, sl H logu i = true -> nd H logu i = true) ->
+  forall (j : nat) (i a x : Z), sl H logu i = true ->
+  dist (doublings Z zleap H L U A logu guard j (top_init i))
+       (fun st => b2q (p_s st && (p_j st =? j)%nat && (p_minus st =? a)%Z && (p_cur st =? x)%Z))
+  == / inject_Z (pw j) * pk H U logu j a i x.
+Proof. intros H L U A logu guard Hf Hs j i a x Hi. exact (alive_law H L U A logu guard Hf Hs j i a x Hi). Qed.
+Print Assumptions C08_alive_law.
+
+(* (b) the 2^-j law of where the start sits inside the trajectory: each of the 2^j blocks of 2^j positions that
+       contain the start is the trajectory after j doublings with probability exactly 2^-j (one direction
+       sequence each) if the loop is alive with it, every other block with probability 0. *)
+Theorem C08_start_position_law :
+  forall (H L : Z -> ext) (U : Z -> Z -> bool) (A : Z -> Q) (logu : ext) (guard : bool),
+  guard = false \/ (forall i, finite_logd Z L i = true) ->
+  (forall i, sl H logu i = true -> nd H logu i = true) ->
+  forall (j : nat) (i a : Z), sl H logu i = true ->
+  dist (doublings Z zleap H L U A logu guard j (top_init i))
+       (fun st => b2q (p_s st && (p_j st =? j)%nat && (p_minus st =? a)%Z))
+  == / inject_Z (pw j) * b2q (okb H U logu j a && ((a <=? i)%Z && (i <? a + pw j)%Z)).
+Proof. intros H L U A logu guard Hf Hs j i a Hi. exact (alive_position_law H L U A logu guard Hf Hs j i a Hi). Qed.
+Print Assumptions C08_start_position_law.
+
+(* (c) the block kernel is doubly stochastic on the slice of every live block: the mass that is alive (rows) and
+       -- the symmetry of the balanced binary tree -- the mass arriving at x from all possible starts (columns). *)
+Theorem C08_block_kernel_doubly_stochastic :
+  forall (H : Z -> ext) (U : Z -> Z -> bool) (logu : ext) (j : nat) (a : Z),
+  (forall i, qs (pk H U logu j a i) (zr a (2 ^ j)) == b2q (okb H U logu j a && inb j a i && sl H logu i)) /\
+  (forall x, qs (fun i => pk H U logu j a i x) (zr a (2 ^ j)) == b2q (okb H U logu j a && inb j a x && sl H logu x)).
+Proof.
+  intros H U logu j a. split; [intros i; exact (pk_rowsum H U logu j a i) | intros x; exact (pk_colsum H U logu j a x)].
+Qed.
+Print Assumptions C08_block_kernel_doubly_stochastic.
+
+(* (d) started from the counting measure on the slice, on the event that the loop is alive after j doublings with
+       trajectory (j, a) the current state is uniform on the in-slice positions of the trajectory: the mass at x
+       is 2^-j for every in-slice x of a live block -- every depth, every U-turn predicate, every labelling.
+   _partial as a statement of invariance of the whole transition: what is not formalised is the bookkeeping of the
+   mass that has already stopped (a new half that says stop, a U-turn of the whole trajectory, the depth bound)
+   -- each stop freezes a state that by (d) is uniform on its trajectory; C08_orbit_stationary_bounded checks the
+   complete statement exhaustively for depth <= 1. *)
+Theorem C08_orbit_uniform_alldepth_partial :
+  forall (H L : Z -> ext) (U : Z -> Z -> bool) (A : Z -> Q) (logu : ext) (guard : bool),
+  guard = false \/ (forall i, finite_logd Z L i = true) ->
+  (forall i, sl H logu i = true -> nd H logu i = true) ->
+  forall (j : nat) (a x : Z),
+  qs (fun i => if sl H logu i
+               then dist (doublings Z zleap H L U A logu guard j (top_init i))
+                         (fun st => b2q (p_s st && (p_j st =? j)%nat && (p_minus st =? a)%Z && (p_cur st =? x)%Z))
+               else 0) (zr a (2 ^ j))
+  == / inject_Z (pw j) * b2q (okb H U logu j a && inb j a x && sl H logu x).
+Proof. intros H L U A logu guard Hf Hs j a x. exact (alive_uniform H L U A logu guard Hf Hs j a x). Qed.
+Print Assumptions C08_orbit_uniform_alldepth_partial.
+
+(* the hypotheses are satisfiable: legacy guard, finite slice variable; all positions in the slice, no U-turn:
+   after 2 doublings from 0 the trajectory is [-1, 2] with probability 1/4 *)
+Example C08_alive_example :
+  (forall (H : Z -> ext) (u : Q) i, sl H (Fin u) i = true -> nd H (Fin u) i = true) /\
+  dist (doublings Z zleap (fun _ => Fin 0) (fun _ => Fin 0) (fun _ _ => true) (fun _ => 0) (Fin (-1 # 1)) false 2 (top_init 0%Z))
+       (fun st => b2q (p_s st && (p_j st =? 2)%nat && (p_minus st =? -1)%Z)) == 1 # 4.
+Proof. split; [exact sl_nd_fin | vm_compute; reflexivity]. Qed.
 
 (* ---- non-vacuity / examples --------------------------------------------------------------------------- *)
 (* a concrete orbit: positions -1..2 in the slice, 3 outside; BuildTree(0,+,1) visits 1,2, counts n' = 2, and each
